@@ -44,6 +44,9 @@ type c17Case struct {
 	// ChildFault: the first follow-up call each service receives is answered with GraphQL errors: that event reports
 	// them, the events after it are stitched as if nothing had happened
 	ChildFault bool `json:"first_child_call_fails,omitempty"`
+	// Pings: the clients send ping frames all along (the gateway's reader answers them with pongs while its
+	// listeners write data frames) over a connection that pauses between the header and the payload of a frame
+	Pings bool `json:"client_pings,omitempty"`
 }
 
 func (c17) ID() string            { return "C17" }
@@ -262,7 +265,7 @@ func (p c17) Gen(c *run.Ctx, idx int) (json.RawMessage, error) {
 			}
 			switch r.Intn(5) {
 			case 0:
-				script = append(script, fake.SubEvent{Kind: "error-frame"})
+				script = append(script, fake.SubEvent{Kind: []string{"error-frame", "error-frame-object"}[r.Intn(2)]})
 			case 1: // stay open
 			default:
 				script = append(script, fake.SubEvent{Kind: "complete"})
@@ -310,6 +313,10 @@ func (p c17) Gen(c *run.Ctx, idx int) (json.RawMessage, error) {
 	}
 	cs.Prelude = idx%4 == 3
 	cs.ChildFault = idx%5 == 1
+	if idx%6 == 5 {
+		cs.Pings = true
+		cs.Cfg.WriteGapUs = 300
+	}
 	return mustJSON(cs), nil
 }
 
@@ -417,6 +424,24 @@ func (p c17) Exec(c *run.Ctx, idx int, raw json.RawMessage) []run.Result {
 		r.CloseWS()
 		return []run.Result{{Verdict: "broken", Message: "cannot dial gateway: " + dialErr.Error()}}
 	}
+	stopPings := make(chan struct{})
+	defer close(stopPings)
+	if sp.Pings {
+		for _, cl := range clients {
+			go func(cl *rig.WSClient) {
+				for k := 0; ; k++ {
+					select {
+					case <-stopPings:
+						return
+					case <-time.After(150 * time.Microsecond):
+					}
+					if cl.SendPing([]byte(fmt.Sprintf("p%d", k%10))) != nil {
+						return
+					}
+				}
+			}(cl)
+		}
+	}
 	var wg sync.WaitGroup
 	for i, conn := range sp.Conns {
 		for _, s := range conn {
@@ -477,7 +502,7 @@ func (p c17) Exec(c *run.Ctx, idx int, raw json.RawMessage) []run.Result {
 		for _, u := range r.Upstreams {
 			for _, uc := range u.Snapshot() {
 				for _, e := range scripts[uc.Marker] {
-					if e.Kind == "error-frame" && atomic.LoadInt32(&uc.Done) == 1 && int(atomic.LoadInt32(&uc.Emitted)) >= emitsWanted(scripts[uc.Marker]) {
+					if (e.Kind == "error-frame" || e.Kind == "error-frame-object") && atomic.LoadInt32(&uc.Done) == 1 && int(atomic.LoadInt32(&uc.Emitted)) >= emitsWanted(scripts[uc.Marker]) {
 						expectFrames++
 					}
 				}
@@ -568,7 +593,7 @@ func (p c17) Exec(c *run.Ctx, idx int, raw json.RawMessage) []run.Result {
 			}
 			if emitted >= len(want) {
 				for _, e := range s.Script {
-					if e.Kind == "error-frame" {
+					if e.Kind == "error-frame" || e.Kind == "error-frame-object" {
 						want = append(want, "error-frame") // forwarded to the client as errors under the same id
 					}
 				}
